@@ -8,19 +8,34 @@
 #include "clauses.hpp"
 #include "exec.hpp"
 #include "ranges.hpp"
+#define REL_ALPHA alpha
+#include "rel_clauses.hpp"
 #ifndef INV_PRE
 #define INV_PRE(c) inv(c)
 #endif
 int64_t last_now;
 int64_t cfg_ttl = 100, cfg_tick = 5;
 extern "C" {
-void __vf_draw_mode(int m); // 0: fresh symbolic draws, recorded; 1: replay the recorded draws from the start
 void __vf_draw_force_distinct(void);
+// the counterexample, for trace extraction
+int64_t  h_last_now, h_pre_ttl, h_pre_tick, h_cfg_ttl;
+uint64_t h_pre_n, h_pre_k[AMAX], h_pre_v[AMAX], h_pre_cnt[AMAX];
+int64_t  h_pre_d[AMAX], h_pre_age[AMAX];
+uint64_t h_op[4], h_k[4], h_v[4], h_a[4], h_pk[4];
+int64_t  h_ttl[4], h_now[4];
 }
-#define RM_INSERT 20
-#define RM_ERASE 21
-#define RM_FIND 22
-#define RM_FILL 23
+static void record_pre(const Abs& pre)
+{
+    h_last_now = last_now; h_pre_ttl = pre.ttl; h_pre_tick = pre.tick; h_pre_n = pre.n; h_cfg_ttl = cfg_ttl;
+    for (size_t p = 0; p < AMAX; ++p)
+    {
+        h_pre_k[p] = pre.k[p]; h_pre_v[p] = pre.v[p]; h_pre_cnt[p] = pre.cnt[p]; h_pre_d[p] = pre.d[p]; h_pre_age[p] = pre.age[p];
+    }
+}
+static void record_ev(int i, const Ev& e)
+{
+    h_op[i] = e.op; h_k[i] = e.k; h_v[i] = e.v; h_a[i] = e.a; h_pk[i] = e.pk; h_ttl[i] = e.ttl; h_now[i] = e.now;
+}
 
 static void sym_ev(Ev& e, int op, int64_t now)
 {
@@ -62,55 +77,26 @@ extern "C" int harness()
     install(c2, play);
 #endif
     Abs a1, a2;
+    (void)a1; (void)a2;
 #if MODE == 1
     Ev e[RMAX];
     for (int i = 0; i < RMAX; ++i)
-        sym_ev(e[i], OP_INSERT, now);
-    const uint8_t al = e[0].a;
-    const bool    pk = T_PEEK ? e[0].pk : false;
-    Res           o1[RMAX], o2[RMAX];
-    bool          ko = true;
-    size_t        n1 = 0, n2 = 0;
+    {
+        sym_ev(e[i], RMETHOD, now);
+        record_ev(i, e[i]);
+    }
+    record_pre(pre);
     __vf_set_now(now);
-    __vf_draw_mode(0);
-#if RMETHOD == RM_INSERT
-    n1 = x_insert_range(c1, e, RLEN, al);
-    __vf_draw_mode(1);
-    for (size_t i = 0; i < RLEN; ++i)
-        n2 += x_insert(c2, e[i].k, e[i].v, al, e[i].ttl) ? 1 : 0;
-    VF_P(18, 1, n1 == n2); // the count equals the number of individual successes
-#elif RMETHOD == RM_ERASE
-    n1 = x_erase_range(c1, e, RLEN);
-    for (size_t i = 0; i < RLEN; ++i)
-        n2 += x_erase(c2, e[i].k) ? 1 : 0;
-    VF_P(18, 2, n1 == n2);
-#elif RMETHOD == RM_FIND
-    n1 = x_find_range(c1, e, RLEN, pk, o1, &ko);
-    for (size_t i = 0; i < RLEN; ++i)
-        x_find(c2, e[i].k, pk, o2[i]);
-    VF_P(18, 3, n1 == RLEN && ko); // one result per input key, in input order, duplicates included
-    for (size_t i = 0; i < RLEN; ++i)
-        VF_P(18, 4, o1[i].ok == o2[i].ok && (!o1[i].ok || o1[i].val == o2[i].val));
-#elif RMETHOD == RM_FILL
-    x_find_range_fill(c1, e, RLEN, pk, o1, &ko);
-    for (size_t i = 0; i < RLEN; ++i)
-        x_find(c2, e[i].k, pk, o2[i]);
-    VF_P(18, 5, ko);
-    for (size_t i = 0; i < RLEN; ++i)
-        VF_P(18, 6, o1[i].ok == o2[i].ok && (!o1[i].ok || o1[i].val == o2[i].val));
-#endif
+    range_vs_singles(c1, c2, RMETHOD, e, RLEN, e[0].a, e[0].pk);
     last_now = now;
-    alpha(c1, a1);
-    alpha(c2, a2);
-    VF_P(18, 7, a_eq(a1, a2));                   // exactly the effect of the singles (values, deadlines, counts, both orders)
-    VF_P(18, 8, c1.size() == c2.size());
     VF_P(0, 3, inv(c1));
     VF_REACH(1);
-    if (n1 > 0) VF_REACH(2);
 #elif MODE == 2
     Ev e;
     sym_ev(e, OP_INSERT, now);
     __vf_assume(pre.n == HCAP && a_idx(pre, e.k) == NPOS && (e.a & 1));
+    record_pre(pre);
+    record_ev(0, e);
     __vf_set_now(now);
     __vf_draw_mode(0);
     bool r1 = x_insert(c1, e.k, e.v, e.a, e.ttl);
@@ -136,6 +122,7 @@ extern "C" int harness()
     c1.clear();
     last_now = now;
     VF_P(0, 4, inv(c1));
+    record_pre(pre);
     for (int step = 0; step < 2; ++step)
     {
         Ev e;
@@ -146,16 +133,9 @@ extern "C" int harness()
         now += dt;
         __vf_assume(now < TMAX);
         sym_ev(e, e.op, now);
-        Res r1, r2;
-        __vf_draw_mode(0);
-        exec_call(c1, e, r1);
-        __vf_draw_mode(1);
-        exec_call(c2, e, r2);
+        record_ev(step, e);
+        twin_step(c1, c2, e);
         last_now = now;
-        alpha(c1, a1);
-        alpha(c2, a2);
-        VF_P(20, 10, r1.ok == r2.ok && r1.val == r2.val && r1.cnt == r2.cnt && r1.n == r2.n && r1.size == r2.size && r1.empty == r2.empty && r1.cap == r2.cap);
-        VF_P(20, 11, a_eq(a1, a2));
     }
     VF_REACH(1);
 #endif
